@@ -18,6 +18,7 @@ EXPLANATION = (
     " (R6) no text-mode emitter filters/skips/takes elements of the lists it is given; (R7) struct emitters write the node's fields in the order the node's parser reads them; (R8) the literal text an emitter writes before/between/after the fields is text the parser's delimiter parsers accept at that place, whitespace aside (parser skeletons and token languages vs. a symbolic evaluation of the emitter's string building; existential over the productions of one node shape; delimiters supplied by calling or position-aware child emitters are followed); (R9) list fields are walked in element order on the text path."
     ' (R10) based-literal prefixes written by the formatter are tags of the parser leaf of that variant; (R11) no HTML entity or tag on the text path of a node emitter.'
     " (R8, empty nodes) a node whose list field is empty is written with text one of the parser's empty productions accepts; (R12) separators the emitters put between list elements are accepted by the list parser's separator language in that context (a tight comma where the parser needs `, ` or whitespace where it forbids it is reported)."
+    " (R13) tight productions: an emitter writes white space between two fields only where a parser step between them (or the neighbouring field's own parser) can consume white space; and the emitter of a node all of whose parsers are white-space free (a token: number, complex literal, grammar identifier) writes no blank, neither literally nor through a helper emitter called with a constant argument."
 )
 OP_ENUMS = ["AddSubOp", "MulDivOp", "PowerOp", "VecOp", "ComparisonOp", "LogicOp", "TableOp", "SetOp", "OpAssignOp", "RangeOp"]
 
